@@ -89,6 +89,8 @@ type scenario struct {
 	FailCall int    `json:"fail_call"` // -1 none
 	FailAt   int    `json:"fail_request_index"`
 	FailKind string `json:"fail_kind,omitempty"`
+	// PageCap > 0: the API serves at most that many records per page, whatever page size is asked for
+	PageCap int `json:"server_page_cap,omitempty"`
 }
 
 // tokens of a parameter string, ech entries separated out
@@ -129,6 +131,7 @@ func splitValue(v string) (others []string, echs []string) {
 
 func run(r *ev.Run, sc scenario) {
 	api := newStore(r1Values()[sc.V1], sc.Pages)
+	api.MaxPerPage = sc.PageCap
 	pub := publish.NewCloudflarePublisher("token")
 	pub.VerifConfigure(url.URL{Scheme: "https", Host: "cf.test", Path: "/client/v4/zones"}, api)
 	defer func() {
@@ -170,11 +173,15 @@ func run(r *ev.Run, sc scenario) {
 			}
 		}
 		named := map[string]bool{}
+		reportedUpdated := map[string]bool{}
 		for ti, t := range c.Targets {
 			tp := targetPool[t]
 			key := tp.Zone + "|" + tp.Name
 			named[key] = true
 			got := results[ti].Code
+			if got == publish.StatusUpdated {
+				reportedUpdated[key] = true
+			}
 			old, exists := cur[key]
 			want := publish.StatusNotFound
 			if exists {
@@ -222,6 +229,10 @@ func run(r *ev.Run, sc scenario) {
 			no, ne := splitValue(np[2])
 			if strings.Join(wo, " ") != strings.Join(no, " ") {
 				r.Violation("other-params-changed", fmt.Sprintf("%s: record %s: parameters other than ech changed or were reordered: %q -> %q", tag, key, wp[2], np[2]), sc)
+			}
+			// whatever else happened in the call: a target reported as updated is stored with exactly the new list
+			if reportedUpdated[key] && (len(ne) != 1 || ne[0] != newVal) {
+				r.Violation("update-reported-but-not-stored", fmt.Sprintf("%s: record %s was reported as updated but the store holds ech entries %q (want [%q]); the API had answered %s to request %d", tag, key, ne, newVal, sc.FailKind, sc.FailAt), sc)
 			}
 			mp := strings.SplitN(cur[key], "|", 3)
 			_, me := splitValue(mp[2])
@@ -279,7 +290,7 @@ func dupKindAny(ts []int) string {
 }
 
 func Run(r *ev.Run) {
-	r.Rule("E4 histories of publishes on a fresh publisher + in-memory Cloudflare fake: initial value of the first record over 9 parameter strings (empty, no ech, ech first/middle/last, two ech entries, already current quoted/unquoted, a tab inside a quoted value with double blanks between parameters), zone on one page or spread over three pages (48 records); calls = (target list over {r1, r2, missing record, unknown zone, record of a second zone} incl. duplicates, config list L1/L2); ALL histories of <=2 calls with lists of length <=2 (thorough <=3) and ALL histories of 3 calls with lists of length <=1; E2: a single API failure {HTTP 400, success:false, malformed JSON} at every request index of every call (1-call and 2-call histories). A map-based model predicts each status; store and request log are checked after each call. distinct = distinct scenarios")
+	r.Rule("E4 histories of publishes on a fresh publisher + in-memory Cloudflare fake: initial value of the first record over 9 parameter strings (empty, no ech, ech first/middle/last, two ech entries, already current quoted/unquoted, a tab inside a quoted value with double blanks between parameters), zone on one page or spread over three pages (48 records), the API honouring the requested page size or capping it at 7/10/19 records per page; calls = (target list over {r1, r2, missing record, unknown zone, record of a second zone} incl. duplicates, config list L1/L2); ALL histories of <=2 calls with lists of length <=2 (thorough <=3) and ALL histories of 3 calls with lists of length <=1; E2: a single API failure {HTTP 400, success:false with and without an errors list, malformed JSON} at every request index of every call (1-call and 2-call histories). A map-based model predicts each status; store and request log are checked after each call. distinct = distinct scenarios")
 	r.Assume("parameter values contain no blanks (the publisher splits on single spaces); tabs inside quoted values and runs of blanks between parameters are in the alphabet", "a record that already carries several ech entries whose last one is current is outside the alphabet",
 		"the fake API follows Cloudflare v4 list semantics: result_info.count is the number of items on the page, total_count the total")
 	maxList := 2
@@ -306,6 +317,11 @@ func Run(r *ev.Run) {
 		for _, pages := range []bool{false, true} {
 			for _, a := range calls {
 				scs = append(scs, scenario{V1: v, Pages: pages, Calls: []call{a}, FailCall: -1})
+				if pages && (v < 2 || r.Thorough()) {
+					for _, pc := range []int{7, 10, 19} {
+						scs = append(scs, scenario{V1: v, Pages: pages, Calls: []call{a}, FailCall: -1, PageCap: pc})
+					}
+				}
 				if pages && v > 2 && !r.Thorough() {
 					continue
 				}
@@ -335,7 +351,7 @@ func Run(r *ev.Run) {
 				if len(a.Targets) == 0 || len(a.Targets) > 2 {
 					continue
 				}
-				for _, kind := range []string{"http400", "success-false", "bad-json"} {
+				for _, kind := range []string{"http400", "success-false", "success-false-no-errors", "bad-json"} {
 					for at := 0; at < 9; at++ {
 						scs = append(scs, scenario{V1: v, Pages: pages, Calls: []call{a}, FailCall: 0, FailAt: at, FailKind: kind})
 						if !pages && at < 5 {
